@@ -162,8 +162,11 @@ CLAIMED = {
        "rule, nothing else can appear in a patch built by the common logics - and every such entry has a row the ACL matches at "
        "every level of its path and is deletable if REMOVED; the ACL only drops entries and only relabels REMOVED->AFFECTED; (c) a "
        "REMOVED entry whose selected match has only cant_delete generators is relabelled, and no common logic emits a removal "
-       "without a REMOVED/MOVED bucket; (b, on the device specification) commands on other (rule,key) slots leave a line, its "
-       "subtree and position alone over whole command lists. The text reading of (a) is false of the code (kernel-checked witness, "
+       "without a REMOVED/MOVED bucket; (b) end to end at the top level (C02_uncovered_line_untouched_flat/_device): if no line of "
+       "old or new that the ACL covers addresses a slot (as written or through its negated form), executing the patch "
+       "_diff_and_patch builds leaves the line holding that slot as it was, whatever the device holds; level-wise at every "
+       "depth: commands on other (rule,key) slots leave a line, its subtree and position alone over whole command lists; "
+       "no generator ACL rule / an empty requested filter => empty diff and empty patch (C02_no_generator_acl_no_patch). The text reading of (a) is false of the code (kernel-checked witness, "
        "finding F02a); (b) needs the hypothesis that an uncovered row shares no slot with a command (finding F02b); %rewrite groups "
        "are re-sent as a whole (findings F02c, F02d). Tie: _diff_and_patch with acl_rules vs the model on 1.9k (quick) generated "
        "rulebook/ACL/config cases; oracle: clauses (a)(b)(c) by executing the real patch on the device specification."
